@@ -1,0 +1,13 @@
+//go:build verif
+
+package dhcp
+
+// Third hook file of the C16 runtime monitor: a wrapper around the shutdown
+// accounting path of Start (what Start runs after its context is cancelled
+// and the listener is closed). Nothing here has behaviour of its own.
+
+// VerifC16StopAllAccounting calls stopAllAccounting with the given
+// Acct-Terminate-Cause.
+func (s *Server) VerifC16StopAllAccounting(terminateCause uint32) {
+	s.stopAllAccounting(terminateCause)
+}
